@@ -73,6 +73,29 @@ Definition num_mod (a b : num) : option num :=
   | _, _ => num_mul a b
   end.
 
+(* cty.Type.TestConformance(given, want) reports no error: the dynamic pseudo-type in [want]
+   accepts anything, at any depth (type_conform.go).  Attribute lists are sorted by name. *)
+Section TyAll2.
+  Context {A B : Type} (f : A -> B -> bool).
+  Fixpoint ty_all2 (l1 : list A) (l2 : list B) : bool :=
+    match l1, l2 with
+    | [], [] => true
+    | x :: r1, y :: r2 => f x y && ty_all2 r1 r2
+    | _, _ => false
+    end.
+End TyAll2.
+Fixpoint ty_conf (have want : ty) {struct have} : bool :=
+  match want with
+  | TDyn => true
+  | _ =>
+      match have, want with
+      | TList a, TList b | TSet a, TSet b | TMap a, TMap b => ty_conf a b
+      | TTuple xs, TTuple ys => ty_all2 ty_conf xs ys
+      | TObj xs, TObj ys => ty_all2 (fun p q => str_eqb (fst p) (fst q) && ty_conf (snd p) (snd q)) xs ys
+      | _, _ => ty_eqb have want
+      end
+  end.
+
 (* Equals on unmarked values. Returns known bool or unknown bool. *)
 Fixpoint equals (fuel : nat) (a b : val) : ores :=
   match fuel with
@@ -107,7 +130,11 @@ Fixpoint equals (fuel : nat) (a b : val) : ores :=
                   if negb (str_eqb (r_prefix x) []) || negb (rf_plain ru) || negb (r_lenlo x =? 0)
                      || (match r_lenhi x with Some _ => true | None => false end)
                   then OUnsupported
-                  else if has_dyn tu then OOk unk_bool_nn
+                  else if has_dyn tu then
+                    (* ValueRange.Includes runs first: a known value whose type cannot conform to
+                       the unknown's type constraint is "definitely not in range" -> False *)
+                    (if ty_conf (type_of k) tu then OOk unk_bool_nn
+                     else if has_dyn (type_of k) then OUnsupported else OOk (VBool false))
                   else if negb (ty_eqb tu (type_of k)) then
                     (if has_dyn (type_of k) then OUnsupported else OOk (VBool false))
                   else OOk unk_bool_nn
